@@ -51,7 +51,7 @@ func violateKeyed16(c *Ctx, v Violation) {
 // (`Defects.asIs`); for a self-test against a copy of the pinned snapshot (before the fix: commits) use
 // VERIF_REPO=<copy> VERIF_C16_MODEL=aswas bin/check C16, which ties the code to `Defects.asWas`.
 func c16Model() string {
-	if m := os.Getenv("VERIF_C16_MODEL"); m == "aswas" {
+	if m := os.Getenv("VERIF_C16_MODEL"); m == "aswas" || m == "repaired" {
 		return m
 	}
 	return "asis"
@@ -347,6 +347,22 @@ func c16NilSafe(c *Ctx, envs []zooEnv) {
 		{mapEnv, "nilv?.x"}, {mapEnv, "nilv?.Foo()"}, {mapEnv, "nilv?.x?.y"}, {mapEnv, "a?.x"},
 		{mapEnv, "st?.Nope"}, {mapEnv, "m?.nope?.deeper"}, {mapEnv, "nope?.x"},
 		{nested, "I?.x"}, {nested, "MA?.nope?.deeper"}, {nested, "MA.nope?.Foo()"},
+	}
+	// members of type pointer-to-function, reached directly, through `?.`, through a map environment
+	for _, p := range []probe{{nested, "Fn.PF(1)"}, {nested, "Fn?.PF(1)"}, {nested, "PFn?.PF(1)"}, {nested, "PFn.PPF(1)"},
+		{mapEnv, "pf(1)"}, {mapEnv, "fns.PF(1)"}, {mapEnv, "fns?.PPF(1)"}} {
+		if p.env == nil {
+			break
+		}
+		rv := compileRun16(p.src, p.env)
+		c.R.Case("ptrfunc|"+p.src, true)
+		c.R.Count("ptrfunc:probes", 1)
+		if rv.accepted && !rv.ran {
+			violateKeyed16(c, Violation{What: "a member of type pointer-to-function is accepted as callable (isFuncType dereferences) but FetchFn hands the pointer to reflect's Call", Key: "c16:accepted-not-resolvable:pointer-to-func",
+				Input: c16Input{fmt.Sprintf("%T", p.env), fmt.Sprintf("%T", p.env), p.src, p.src}, Expect: "the call succeeds", Got: rv.rerr})
+		} else if !rv.accepted {
+			c.R.Mismatch("c16/ptrfunc", p.src, "accepted", rv.cerr)
+		}
 	}
 	for _, p := range probes {
 		if p.env == nil {
@@ -1009,7 +1025,51 @@ func dynFuncType(env interface{}, name string) reflect.Type {
 	for v.Kind() == reflect.Ptr {
 		v = v.Elem()
 	}
-	return v.FieldByName(name).Elem().Type()
+	f := v.FieldByName(name)
+	for f.Kind() == reflect.Ptr {
+		f = f.Elem()
+	}
+	return f.Elem().Type()
+}
+
+// memberField: the struct field `name` of env (through embedding), if any
+func memberField(env interface{}, name string) (reflect.Value, bool) {
+	v := reflect.ValueOf(env)
+	for v.Kind() == reflect.Ptr {
+		if v.IsNil() {
+			return reflect.Value{}, false
+		}
+		v = v.Elem()
+	}
+	if v.Kind() != reflect.Struct {
+		return reflect.Value{}, false
+	}
+	f := v.FieldByName(name)
+	return f, f.IsValid()
+}
+
+// nilPtrMember: the member is a nil pointer — calling through it fails for a value-dependent reason
+func nilPtrMember(env interface{}, name string) bool {
+	f, ok := memberField(env, name)
+	for ok && f.Kind() == reflect.Ptr {
+		if f.IsNil() {
+			return true
+		}
+		f = f.Elem()
+	}
+	return false
+}
+
+// ptrToIfaceFunc: the member is a (non-nil) pointer to an interface holding a function
+func ptrToIfaceFunc(env interface{}, name string) bool {
+	f, ok := memberField(env, name)
+	if !ok || f.Kind() != reflect.Ptr {
+		return false
+	}
+	for f.Kind() == reflect.Ptr && !f.IsNil() {
+		f = f.Elem()
+	}
+	return f.Kind() == reflect.Interface && !f.IsNil() && f.Elem().Kind() == reflect.Func
 }
 
 // holdsFunc: does the struct field `name` of env (through embedding) hold a function in an interface?
@@ -1022,6 +1082,9 @@ func holdsFunc(env interface{}, name string) bool {
 		return false
 	}
 	f := v.FieldByName(name)
+	for f.IsValid() && f.Kind() == reflect.Ptr && !f.IsNil() {
+		f = f.Elem()
+	}
 	return f.IsValid() && f.Kind() == reflect.Interface && !f.IsNil() && f.Elem().Kind() == reflect.Func
 }
 
@@ -1238,6 +1301,11 @@ func c16TopLevel(c *Ctx, e zooEnv, names []string, rows []*Sx) {
 			// a slot of interface type holding a non-function: whether the call works is a matter of the
 			// dynamic value, not of name resolution
 			dynamicOnly := ft.Kind() == reflect.Interface && isStructEnv && dynFuncType(e.Val, name) == nil
+			if nilPtrMember(e.Val, name) {
+				// a nil *func member: the call fails whatever the checker said; value-dependent
+				c.R.Count("call:nil-pointer-member", 1)
+				continue
+			}
 			if !dynamicOnly && cv.ran != mFetchFn.IsL {
 				c.R.Mismatch("c16/call-run", in.Env+" "+src, mFetchFn.String(), fmt.Sprintf("ran=%v err=%s", cv.ran, cv.rerr))
 			}
@@ -1246,8 +1314,12 @@ func c16TopLevel(c *Ctx, e zooEnv, names []string, rows []*Sx) {
 				switch {
 				case fieldFound && !exported:
 					key, what = "c16:unexported-func-field-accepted", "unexported func-typed field accepted by the checker cannot be called at run time"
+				case strings.Contains(cv.rerr, "Call on ptr Value"):
+					key, what = "c16:accepted-not-resolvable:pointer-to-func", "a member of type pointer-to-function is accepted as callable (isFuncType dereferences) but FetchFn hands the pointer to reflect's Call"
 				case t.Kind() == reflect.Map && t.Elem().Kind() != reflect.Interface:
 					key, what = "c16:func-in-typed-map-not-callable", "function held in a map environment with a non-interface element type is accepted but FetchFn cannot call it"
+				case ft.Kind() == reflect.Interface && ptrToIfaceFunc(e.Val, name):
+					key, what = "c16:accepted-not-resolvable:pointer-to-interface-holding-func", "function held in an interface behind a pointer member (*interface{}) is accepted as callable (isFuncType dereferences), but FetchFn stops at the interface value and reflect's Call refuses it"
 				case ft.Kind() == reflect.Interface && holdsFunc(e.Val, name):
 					key, what = "c16:func-in-interface-field-not-callable", "function held in a struct field of interface type is accepted as callable, but FetchFn returns the interface-kinded field and reflect's Call refuses it"
 				case ft.Kind() == reflect.Interface:
@@ -1554,6 +1626,16 @@ func c16Member(c *Ctx, e zooEnv, path string, rt reflect.Type, name string, row 
 		c.R.Mismatch("c16/methodType", e.Name+" "+csrc+" : "+rt.String(), row[2].String(), fmt.Sprintf("accepted=%v err=%s", cv.accepted, cv.cerr))
 	}
 	callable := ft.Kind() == reflect.Func && ft.NumOut() == 1
+	recvOut := compileRun16(path, e.Val).out
+	if cv.accepted && recvOut != nil && nilPtrMember(recvOut, name) {
+		c.R.Count("membercall:nil-pointer-member", 1)
+		return
+	}
+	if cv.accepted && !cv.ran && recvOut != nil && ptrToIfaceFunc(recvOut, name) {
+		violateKeyed16(c, Violation{What: "function held in an interface behind a pointer member (*interface{}) is accepted as callable (isFuncType dereferences), but FetchFn stops at the interface value and reflect's Call refuses it",
+			Key: "c16:accepted-not-resolvable:pointer-to-interface-holding-func", Input: cin, Expect: "call succeeds", Got: cv.rerr})
+		return
+	}
 	if cv.accepted {
 		c.R.Count("membercall:accepted", 1)
 		if base.Kind() != reflect.Map && !dynamicOnly && cv.ran != row[4].IsL {
@@ -1568,6 +1650,8 @@ func c16Member(c *Ctx, e zooEnv, path string, rt reflect.Type, name string, row 
 			switch {
 			case fieldFound && !exported:
 				key, what = "c16:unexported-func-field-accepted", "unexported func-typed field accepted by the checker cannot be called at run time"
+			case strings.Contains(cv.rerr, "Call on ptr Value"):
+				key, what = "c16:accepted-not-resolvable:pointer-to-func", "a member of type pointer-to-function is accepted as callable (isFuncType dereferences) but FetchFn hands the pointer to reflect's Call"
 			case !methodFound && !fieldFound:
 				key, what = "c16:ambiguous-method-accepted", "method that Go finds ambiguous (or that needs an addressable receiver) is accepted by the checker's depth-first search"
 			}
